@@ -403,6 +403,53 @@ fn probe_jump_over_held(extra_held: usize) -> Option<(u64, Option<String>)> {
 	Some((held, out.map(|m| format!("preimage update ahead of {} held monitor updates (1 revoke_and_ack update behind an unhandled PaymentSent + {} later updates): {}", held, extra_held, m))))
 }
 
+/// C09: everything held behind a monitor update is released when the updates complete — also when a SECOND update is
+/// generated on the channel while the first is still in flight. Node 0 learns through node 1's final revoke_and_ack that its
+/// payment p2 failed while that RAA's monitor update is InProgress (the failure is held); before it completes, node 0
+/// generates another update (`second`: 0 = claims the inbound payment p1, 1 = fails p1 back, 2 = nothing); the updates then
+/// complete in ascending or descending order. Afterwards p2 must have its PaymentFailed, p1 its outcome, nothing is stuck.
+fn probe_second_update_while_paused(second: u8, descending: bool) -> Option<String> {
+	fn drain(net: &mut Net) {
+		for _ in 0..30 {
+			let mut moved = false;
+			while let Some((i, j)) = net.any_queued() { net.deliver(i, j); moved = true; }
+			for i in 0..2 { if net.nodes[i].node.needs_pending_htlc_processing() { net.forward(i); moved = true; } let b = net.trace.len(); net.process_events(i); if net.trace.len() != b { moved = true; } }
+			if !moved { break; }
+		}
+	}
+	let mut net = Net::new(2, vec![None, None]);
+	let c = net.open(0, 1, 1_000_000, 500_000_000);
+	let p1 = net.send(&[1, 0], &[c], 1_000_000, 80).ok()?; drain(&mut net); // claimable at node 0, not claimed
+	let p2 = net.send(&[0, 1], &[c], 500_000, 80).ok()?; drain(&mut net);   // claimable at node 1
+	net.fail_back(p2);
+	if net.nodes[1].node.needs_pending_htlc_processing() { net.forward(1); }
+	net.process_events(1);
+	// 1 -> 0: update_fail + commitment_signed; 0 -> 1: revoke_and_ack + commitment_signed; 1 -> 0: the final revoke_and_ack (kept queued)
+	while net.queued(1, 0) > 0 { net.deliver(1, 0)?; }
+	while net.queued(0, 1) > 0 { net.deliver(0, 1)?; }
+	if net.queued(1, 0) != 1 { std::mem::forget(net); return Some("probe_second_update_while_paused: could not reach the state with only the final revoke_and_ack queued".into()); }
+	net.set_mode(0, true);
+	net.deliver(1, 0)?; // the failure becomes irrevocable, its monitor update is InProgress: nothing may be released yet
+	let early = net.events[0].iter().any(|e| matches!(e, lightning::events::Event::PaymentFailed { .. }));
+	match second { 0 => net.claim(p1), 1 => net.fail_back(p1), _ => {} }
+	if net.nodes[0].node.needs_pending_htlc_processing() { net.forward(0); }
+	let mut ids = net.pending_updates(0, c);
+	if descending { ids.reverse(); }
+	for id in ids { net.complete(0, c, id); }
+	net.set_mode(0, false);
+	for _ in 0..6 { for id in net.pending_updates(0, c) { net.complete(0, c, id); } drain(&mut net); }
+	let h2 = net.pays[p2].hash; let h1 = net.pays[p1].hash;
+	let failed2 = net.events[0].iter().any(|e| matches!(e, lightning::events::Event::PaymentFailed { payment_hash: Some(h), .. } if *h == h2));
+	let p1_done = match second { 0 => net.events[1].iter().any(|e| matches!(e, lightning::events::Event::PaymentSent { payment_hash, .. } if *payment_hash == h1)), 1 => net.events[1].iter().any(|e| matches!(e, lightning::events::Event::PaymentFailed { payment_hash: Some(h), .. } if *h == h1)), _ => true };
+	let stuck = net.nodes[0].node.list_recent_payments().len();
+	let err = net.trace.iter().any(|o| matches!(o, Obs::ProtoError { .. })) || !net.closed.is_empty();
+	let tail: Vec<String> = net.trace.iter().filter(|o| !matches!(o, Obs::Balance { .. })).map(fmt_obs).collect::<Vec<_>>().into_iter().rev().take(28).rev().collect();
+	std::mem::forget(net);
+	if std::env::var("VERIF_TRACE").is_ok() { eprintln!("probe_second_update_while_paused({}, {}):\n  {}", second, descending, tail.join("\n  ")); }
+	if early { return Some(format!("held payment failure released while its monitor update was still InProgress (second={}, descending={})", second, descending)); }
+	if failed2 && p1_done && !err && stuck == 0 { None } else { Some(format!("a second monitor update generated while the first was in flight (second={}, completion descending={}): held payment failure released: {}, other payment resolved: {}, payments still listed at node 0: {}, protocol error / closure: {}", second, descending, failed2, p1_done, stuck, err)) }
+}
+
 /// Deterministic probe for C09 (known finding KF-C09-1): an inbound channel whose INITIAL monitor persist is still
 /// InProgress sees the funding confirmation and the peer's channel_ready; after a reconnect `channel_reestablish`
 /// retransmits channel_ready although the initial ChannelMonitor has not been reported durable.
@@ -538,6 +585,9 @@ fn main() {
 		rec.notes.insert("bad_cs_probes_refused".into(), format!("{}", reached_in.get("bad_cs_refused").copied().unwrap_or(0)));
 	}
 	if args.model == "mongate" && std::env::var("VERIF_PROPERTY").map(|p| p == "C09").unwrap_or(true) {
+		for second in 0..3u8 { for desc in [false, true] {
+			match guarded(std::panic::AssertUnwindSafe(|| probe_second_update_while_paused(second, desc))) { Ok(Some(m)) => rec.oracle_fail(m), Ok(None) => { *rec.classes.entry("probe:second-update-while-paused:ok".into()).or_insert(0) += 1; }, Err(p) => rec.oracle_fail(format!("second-update-while-paused probe ({}, {}) panicked: {}", second, desc, p.chars().take(200).collect::<String>())) }
+		} }
 		for k in 0..4usize {
 			match guarded(std::panic::AssertUnwindSafe(|| probe_jump_over_held(k))) { Ok(Some((_, Some(m)))) => rec.oracle_fail(m), Ok(Some((held, None))) => { *rec.classes.entry(format!("probe:jump-over-held:ok:held={}", held)).or_insert(0) += 1; }, Ok(None) => rec.oracle_fail(format!("jump-over-held probe ({} extra) could not be set up", k)), Err(p) => rec.oracle_fail(format!("preimage update ahead of held monitor updates ({} extra): panicked: {}", k, p.chars().take(200).collect::<String>())) }
 		}
